@@ -177,6 +177,148 @@ theorem won_of_out {h : H} {a : AuthReq} {c : OPClient} {k : String} {nr : Optio
   | idle _ _ => simp [outOf] at ho
   | run _ _ _ => simp [outOf] at ho
 
+/-! ## deep4-C04: ARBITRARY pairs - every answer with tokens is justified by ITS OWN request's validation
+
+`c04_concurrent_at_most_one` speaks about two redemptions that both succeed.  Here the two requests are arbitrary (a foreign
+client, no / a wrong `code_verifier`, another `redirect_uri`, wrong credentials, ...), the storage contract is arbitrary, and so
+is the schedule: a handler answers with tokens only if the validation of the request IT was handed (`Flow.codeExchange` - by
+`C04.codeExchange_provider_bridge` / `_legacy_bridge` the regenerated handlers) succeeded on a state of the storage that occurred
+during the race.  No answer is ever taken over from the other handler. -/
+
+/-- the states a race passes through, seen from its initial state: the configuration and the registrations are the same, the
+    stored requests and codes are among the initial ones (handlers create tokens and delete requests, nothing else) -/
+structure RaceReach (s s' : St) : Prop where
+  cfg : CfgEq s s'
+  reqs : ∀ a, a ∈ s'.store.authReqs → a ∈ s.store.authReqs
+  codes : ∀ x, x ∈ s'.store.codes → x ∈ s.store.codes
+
+theorem RaceReach.refl (s : St) : RaceReach s s := ⟨CfgEq.refl s, fun _ h => h, fun _ h => h⟩
+
+theorem CfgEq.trans' {s s' s'' : St} (h1 : CfgEq s s') (h2 : CfgEq s' s'') : CfgEq s s'' := by
+  obtain ⟨a1, a2, a3, a4, a5, a6, a7, a8⟩ := h1
+  obtain ⟨b1, b2, b3, b4, b5, b6, b7, b8⟩ := h2
+  exact ⟨b1.trans a1, b2.trans a2, b3.trans a3, b4.trans a4, b5.trans a5, b6.trans a6, b7.trans a7, b8.trans a8⟩
+
+theorem RaceReach.mint {s s' : St} (h : RaceReach s s') (i : IssueFor) : RaceReach s (mintTokens s' i) := by
+  obtain ⟨h1, h2, _, h4⟩ := mintTokens_auth s' i
+  exact ⟨CfgEq.trans' h.cfg h4, fun a ha => h.reqs a (h1 ▸ ha), fun x hx => h.codes x (h2 ▸ hx)⟩
+
+theorem RaceReach.delete {s s' : St} (h : RaceReach s s') (id : String) : RaceReach s (deleteAuthRequest s' id) := by
+  refine ⟨CfgEq.trans' h.cfg ⟨rfl, rfl, rfl, rfl, rfl, rfl, rfl, rfl⟩, ?_, ?_⟩
+  · intro a ha
+    simp only [deleteAuthRequest, St.store, St.setStore, List.mem_filter] at ha
+    exact h.reqs a ha.1
+  · intro x hx
+    simp only [deleteAuthRequest, St.store, St.setStore, List.mem_filter] at hx
+    exact h.codes x hx.1
+
+/-- what a handler is issuing for, if anything -/
+def issueOf : H → Option IssueFor
+  | .idle _ _ => none
+  | .run i _ _ => some i
+  | .fin (.issued i _) => some i
+  | .fin _ => none
+
+/-- handler `h` serves request (`req`, `ha`) of a race that started in `s0`: it has not looked anything up yet and still holds
+    exactly that request, or what it is issuing for is what the validation of THAT request answered on a state of the race -/
+structure Own (now : Int) (rt : Router) (s0 : St) (req : AccessTokenRequest) (ha : Bool) (h : H) : Prop where
+  idle : ∀ r a, h = .idle r a → r = req ∧ a = ha
+  issue : ∀ i, issueOf h = some i → ∃ s', RaceReach s0 s' ∧ codeExchange now rt s'.p req ha = .ok i
+
+theorem Own.none {now : Int} {rt : Router} {s0 : St} {req : AccessTokenRequest} {ha : Bool} (e : String) :
+    Own now rt s0 req ha (.fin (.error e)) :=
+  ⟨(fun _ _ h => by cases h), fun i hi => by simp [issueOf] at hi⟩
+
+/-- a handler that goes on with the SAME issue (or ends with it) keeps serving its own request -/
+theorem Own.keep {now : Int} {rt : Router} {s0 : St} {req : AccessTokenRequest} {ha : Bool} {h : H} (ho : Own now rt s0 req ha h)
+    {i : IssueFor} (hi : issueOf h = some i) (todo : List Act) (nr nr' : Option String) :
+    Own now rt s0 req ha (if todo.isEmpty then .fin (.issued i nr) else .run i todo nr') := by
+  obtain ⟨s', hr, hce⟩ := ho.issue i hi
+  split
+  · exact ⟨(fun _ _ h => by cases h), fun j hj => by simp only [issueOf, Option.some.injEq] at hj; exact ⟨s', hr, hj ▸ hce⟩⟩
+  · exact ⟨(fun _ _ h => by cases h), fun j hj => by simp only [issueOf, Option.some.injEq] at hj; exact ⟨s', hr, hj ▸ hce⟩⟩
+
+/-- one step of one handler, ANY storage contract: the state stays within the race's reach, and the handler keeps serving its
+    own request -/
+theorem hstep_own (now : Int) (rt : Router) (strict : Bool) (s0 s : St) (req : AccessTokenRequest) (ha : Bool) (h : H)
+    (hr : RaceReach s0 s) (ho : Own now rt s0 req ha h) :
+    RaceReach s0 (hstep now rt strict s h).1 ∧ Own now rt s0 req ha (hstep now rt strict s h).2 := by
+  cases h with
+  | idle r a =>
+    obtain ⟨rfl, rfl⟩ := ho.idle r a rfl
+    simp only [hstep]
+    cases hce : codeExchange now rt s.p r a with
+    | error e => exact ⟨hr, Own.none e⟩
+    | ok i =>
+      refine ⟨hr, ?_⟩
+      simp only []
+      split
+      · exact ⟨(fun _ _ h => by cases h), fun j hj => by simp only [issueOf, Option.some.injEq] at hj; exact ⟨s, hr, hj ▸ hce⟩⟩
+      · exact ⟨(fun _ _ h => by cases h), fun j hj => by simp only [issueOf, Option.some.injEq] at hj; exact ⟨s, hr, hj ▸ hce⟩⟩
+  | run i todo nr =>
+    cases todo with
+    | nil =>
+      simp only [hstep]
+      exact ⟨hr, by simpa using ho.keep (i := i) rfl [] nr nr⟩
+    | cons act todo =>
+      cases act with
+      | mint =>
+        simp only [hstep]
+        exact ⟨hr.mint i, ho.keep (i := i) rfl todo _ _⟩
+      | delete =>
+        cases i with
+        | refresh r c cur =>
+          simp only [hstep]
+          exact ⟨hr, ho.keep (i := .refresh r c cur) rfl todo _ _⟩
+        | code a c k =>
+          simp only [hstep]
+          cases hd : deleteStep strict s a.id with
+          | some s1 =>
+            have hs1 : s1 = deleteAuthRequest s a.id := by
+              unfold deleteStep at hd; split at hd <;> simp at hd; exact hd.symm
+            simp only []
+            exact ⟨hs1 ▸ hr.delete a.id, ho.keep (i := .code a c k) rfl todo _ _⟩
+          | none =>
+            simp only []
+            by_cases hf : deleteFailureFatal = true
+            · simp only [hf, if_true]
+              exact ⟨hr, Own.none _⟩
+            · simp only [hf, Bool.false_eq_true, if_false]
+              exact ⟨hr, ho.keep (i := .code a c k) rfl todo _ _⟩
+  | fin o =>
+    simp only [hstep]
+    exact ⟨hr, ho⟩
+
+/-- the invariant of a race over arbitrary requests -/
+structure OwnInv (now : Int) (rt : Router) (s0 : St) (req1 : AccessTokenRequest) (ha1 : Bool) (req2 : AccessTokenRequest) (ha2 : Bool)
+    (c : Conc) : Prop where
+  reach : RaceReach s0 c.s
+  own1 : Own now rt s0 req1 ha1 c.h1
+  own2 : Own now rt s0 req2 ha2 c.h2
+
+theorem ownInv_run (now : Int) (rt : Router) (strict : Bool) (s0 : St) (req1 : AccessTokenRequest) (ha1 : Bool)
+    (req2 : AccessTokenRequest) (ha2 : Bool) (c : Conc) (h : OwnInv now rt s0 req1 ha1 req2 ha2 c) (sched : List Bool) :
+    OwnInv now rt s0 req1 ha1 req2 ha2 (Conc.run now rt strict c sched) := by
+  induction sched generalizing c with
+  | nil => exact h
+  | cons b rest ih =>
+    apply ih
+    cases b with
+    | true =>
+      obtain ⟨r, o⟩ := hstep_own now rt strict s0 c.s req1 ha1 c.h1 h.reach h.own1
+      simp only [Conc.step, if_true]
+      exact ⟨r, o, h.own2⟩
+    | false =>
+      obtain ⟨r, o⟩ := hstep_own now rt strict s0 c.s req2 ha2 c.h2 h.reach h.own2
+      simp only [Conc.step, Bool.false_eq_true, if_false]
+      exact ⟨r, h.own1, o⟩
+
+theorem issueOf_of_out {h : H} {i : IssueFor} {nr : Option String} (ho : outOf h = .issued i nr) : issueOf h = some i := by
+  cases h with
+  | fin o => simp only [outOf] at ho; subst ho; rfl
+  | idle _ _ => simp [outOf] at ho
+  | run _ _ _ => simp [outOf] at ho
+
 end FlowX
 
 namespace C04
@@ -198,6 +340,79 @@ theorem c04_concurrent_at_most_one (now : Int) (s : Flow.St) (rt : Router) (req1
     · rintro a1 a2 (⟨c, k, nr, hw⟩ | ⟨c, k, nr, hw⟩) <;> cases hw
   have hfin := cinv_run now rt _ hinit (sched ++ drain)
   exact hfin.distinct a1 a2 (won_of_out h1).past (won_of_out h2).past
+
+/-- what the validation of request `req` has established when it lets the request through, in the terms of the property: the
+    presented code resolved - on a state `s'` of the race - to request `a`, which was stored when the race began; the caller is
+    authenticated as (a public client: identified as) client `c`, which IS the request's client and is registered for the grant;
+    the presented redirect_uri is the request's, byte for byte; a challenge on the request is met by the presented verifier, and a
+    public client's request has a challenge -/
+def Validated (now : Int) (s s' : Flow.St) (req : AccessTokenRequest) (a : AuthReq) (c : OPClient) (k : String) : Prop :=
+  k = req.Code ∧ s'.p.store.AuthRequestByCode req.Code = .ok a ∧ a ∈ s.store.authReqs ∧ c.id = a.clientID ∧
+  Const.GrantTypeCode ∈ c.grants ∧ req.RedirectURI = a.redirectURI ∧
+  (a.challenge ≠ none → req.CodeVerifier ≠ "" ∧ Gen.VerifyCodeChallenge now a.challenge req.CodeVerifier = true) ∧
+  (c.auth = Const.AuthMethodNone → a.challenge ≠ none) ∧
+  AuthAs now s'.p req.ClientID req.ClientSecret req.ClientAssertionType req.ClientAssertion c
+
+theorem validated_of_reach {now : Int} {rt : Router} {s s' : Flow.St} {req : AccessTokenRequest} {ha : Bool} {a : AuthReq} {c : OPClient} {k : String}
+    (hr : RaceReach s s') (h : codeExchange now rt s'.p req ha = .ok (.code a c k)) : Validated now s s' req a c k := by
+  obtain ⟨a', c', hi, h1, h2, h3, h4, h5, h6, h7⟩ := codeExchange_ok h
+  cases hi
+  obtain ⟨id, _, hfind⟩ := storeLookup h1
+  exact ⟨rfl, h1, hr.reqs _ (List.mem_of_find?_eq_some hfind), h2, h3, h4, h5, h6, h7⟩
+
+/-- **Concurrent exchanges, arbitrary pairs.**  Whatever the state, the router, the storage contract (`strict` or not), the TWO
+    REQUESTS (nothing is assumed about either: the same code presented by another client, without or with a wrong verifier, with
+    another redirect_uri, with wrong credentials, ...) and the interleaving of the two handlers' storage steps: a handler answers
+    with tokens only if the validation of ITS OWN request succeeded on a state of the race - client authentication and binding,
+    redirect_uri, PKCE, each against the request it was handed.  An answer is never justified by the other request. -/
+theorem c04_concurrent_each_validated (now : Int) (s : Flow.St) (rt : Router) (strict : Bool) (req1 req2 : AccessTokenRequest) (ha1 ha2 : Bool)
+    (sched : List Bool) :
+    (∀ a c k nr, (stepConc now s rt strict req1 ha1 req2 ha2 sched).2.1 = .issued (.code a c k) nr →
+        ∃ s', RaceReach s s' ∧ Validated now s s' req1 a c k) ∧
+    (∀ a c k nr, (stepConc now s rt strict req1 ha1 req2 ha2 sched).2.2.1 = .issued (.code a c k) nr →
+        ∃ s', RaceReach s s' ∧ Validated now s s' req2 a c k) := by
+  have hinit : OwnInv now rt s req1 ha1 req2 ha2 { s := s, h1 := .idle req1 ha1, h2 := .idle req2 ha2 } :=
+    ⟨RaceReach.refl s, ⟨(fun _ _ e => by cases e; exact ⟨rfl, rfl⟩), fun i hi => by simp [issueOf] at hi⟩,
+      ⟨(fun _ _ e => by cases e; exact ⟨rfl, rfl⟩), fun i hi => by simp [issueOf] at hi⟩⟩
+  have hfin := ownInv_run now rt strict s req1 ha1 req2 ha2 _ hinit (sched ++ drain)
+  constructor
+  · intro a c k nr ho
+    obtain ⟨s', hr, hce⟩ := hfin.own1.issue _ (issueOf_of_out ho)
+    exact ⟨s', hr, validated_of_reach hr hce⟩
+  · intro a c k nr ho
+    obtain ⟨s', hr, hce⟩ := hfin.own2.issue _ (issueOf_of_out ho)
+    exact ⟨s', hr, validated_of_reach hr hce⟩
+
+/-- ... in the monitor's terms: for a reference monitor that knows the provider's registrations (`SameCfg`), an answer with tokens
+    to either request of a concurrent pair passes the monitor's OWN binding tests for THAT request - `callerIs`, equal
+    redirect_uri, `pkceOK` / a public client's request has a challenge - , i.e. none of the clauses
+    `caller-is-not-the-code's-client`, `grant-not-registered`, `redirect-uri-differs`, `pkce` can be raised against it -/
+theorem c04_concurrent_binding (now : Int) (s : Flow.St) (m : C04.MonState) (hm : SameCfg m s.p) (rt : Router) (strict : Bool)
+    (req1 req2 : AccessTokenRequest) (ha1 ha2 : Bool) (sched : List Bool) :
+    let r := stepConc now s rt strict req1 ha1 req2 ha2 sched
+    ∀ (out : Flow.Out) (req : AccessTokenRequest), (out = r.2.1 ∧ req = req1) ∨ (out = r.2.2.1 ∧ req = req2) →
+      ∀ a c k nr, out = .issued (.code a c k) nr →
+        a ∈ s.store.authReqs ∧ c.id = a.clientID ∧
+        C04.callerIs m now c (presentedCode req) = true ∧ c.grants.contains "authorization_code" = true ∧
+        (presentedCode req).redirectURI = a.redirectURI ∧
+        (match a.challenge with | some ch => !C04.pkceOK ch (presentedCode req).verifier | none => c.auth == "none") = false := by
+  intro r out req hsel a c k nr hout
+  have hv : ∃ s', RaceReach s s' ∧ Validated now s s' req a c k := by
+    rcases hsel with ⟨ho, hq⟩ | ⟨ho, hq⟩
+    · rw [hq]; exact (c04_concurrent_each_validated now s rt strict req1 req2 ha1 ha2 sched).1 a c k nr (ho ▸ hout)
+    · rw [hq]; exact (c04_concurrent_each_validated now s rt strict req1 req2 ha1 ha2 sched).2 a c k nr (ho ▸ hout)
+  obtain ⟨s', hr, _, _, hmem, hcid, hgrant, hred, hpk1, hpk2, hauth⟩ := hv
+  have hm' : SameCfg m s'.p := SameCfg.trans hm hr.cfg
+  refine ⟨hmem, hcid, callerIs_of_authAs (pr := presentedCode req) hm' rfl rfl rfl hauth,
+    by simpa [Const.GrantTypeCode] using hgrant, hred, ?_⟩
+  cases hch : a.challenge with
+  | none =>
+    have : c.auth ≠ "none" := fun h => absurd hch (hpk2 h)
+    simpa using this
+  | some ch =>
+    obtain ⟨hne, hver⟩ := hpk1 (by simp [hch])
+    have := pkce_of_verify hne (hch ▸ hver)
+    simp [presentedCode, this]
 
 /-! Concrete races over the demo history (authorize, login, callback c1; `web` redeems c1 twice at once). -/
 def demoPre : List Flow.Op := [demoAuthorize, .login "ar1" "user1" 1000, .callback "ar1" "c1"]
@@ -249,6 +464,40 @@ theorem c04_concurrent_sequential : ∀ rt : Router, ∀ strict : Bool,
 theorem c04_concurrent_orphan :
     let r := demoRace .provider true [true, false, true, false, true, false]
     nTokens r = 1 ∧ (tokensBeforeDelete = true → r.1.store.refresh.map (·.token) = ["rt1", "rt2"]) := by decide
+
+/-! deep4-C04: the rightful client and an INTRUDER present the one code at once (non-vacuity of `c04_concurrent_each_validated`). -/
+
+/-- requests that know the code but must be refused on their own account: the public client `pub` (identifies correctly as itself),
+    `web` with a wrong secret, `web` with another redirect_uri -/
+def demoIntruders : List AccessTokenRequest :=
+  [{ demoReq with ClientID := "pub", ClientSecret := "" }, { demoReq with ClientSecret := "guess" },
+   { demoReq with RedirectURI := "https://rp.example/cb/" }]
+
+def isErr : Flow.Out → Bool | .error _ => true | _ => false
+
+def demoRaceWith (rt : Router) (strict : Bool) (intruder : AccessTokenRequest) (intruderFirst : Bool) (sched : List Bool) :=
+  if intruderFirst then stepConc 0 (Flow.run 0 demoState demoPre).1 rt strict intruder false demoReq false sched
+  else stepConc 0 (Flow.run 0 demoState demoPre).1 rt strict demoReq false intruder false sched
+
+/-- under each of the 20 interleavings, on both routers, under both storage contracts, whichever of the two is handler 1: the
+    rightful client is answered with tokens, the intruder with an error -/
+example : ∀ rt : Router, ∀ strict first : Bool, demoIntruders.all (fun q => interleavings.all (fun sch =>
+    let r := demoRaceWith rt strict q first sch
+    let (mine, theirs) := if first then (r.2.2.1, r.2.1) else (r.2.1, r.2.2.1)
+    outKind mine == "tokens" && isErr theirs)) = true := by
+  intro rt strict first; cases rt <;> cases strict <;> cases first <;> decide
+
+/-- PKCE: the request carries an S256 challenge; the rightful public client presents the verifier, the intruder - the same public
+    client id, everything else right - presents none / the challenge string / another verifier: never tokens, all interleavings -/
+example : ∀ rt : Router, ∀ strict : Bool,
+    let pre : List Flow.Op := [.authorize { clientID := "pub", redirectURI := "https://rp.example/cb", scopes := ["openid"], nonce := "n-1", challenge := some { Challenge := "S256(v1)", Method := "S256" } } {},
+                               .login "ar1" "user1" 1000, .callback "ar1" "c1"]
+    let good : AccessTokenRequest := { Code := "c1", RedirectURI := "https://rp.example/cb", ClientID := "pub", CodeVerifier := "v1" }
+    [{ good with CodeVerifier := "" }, { good with CodeVerifier := "S256(v1)" }, { good with CodeVerifier := "v2" }].all (fun bad =>
+      interleavings.all (fun sch =>
+        let r := stepConc 0 (Flow.run 0 demoState pre).1 rt strict good false bad false sch
+        outKind r.2.1 == "tokens" && isErr r.2.2.1)) = true := by
+  intro rt strict; cases rt <;> cases strict <;> decide
 
 /-- two DIFFERENT requests redeemed concurrently both succeed (the theorem does not forbid too much) -/
 example :
